@@ -201,6 +201,20 @@ Next ==
 
 Spec == Init /\ [][Next]_vars
 
+\* Fairness for liveness checking: the I/O thread keeps running, the server keeps answering what it
+\* owes, callers that can return do return.  (Client calls, spontaneous server events and faults stay
+\* unfair: they may or may not happen.)
+IoStep == (\E n \in Chans \cup {0} : IoPull(n)) \/ IoWrite \/ IoDispatch
+SrvStep == SrvTake \/ (\E n \in Chans \cup {0} : SrvReply(n))
+RetStep == \E h \in DOMAIN cl : Return(h)
+FairSpec == Spec /\ WF_vars(IoStep) /\ WF_vars(SrvStep) /\ WF_vars(RetStep)
+
+\* C05 / C04 as progress: whoever waits is eventually released - by the reply, by the close error, or
+\* by the I/O thread's death (whatever the faults)
+Busy(n) == HName(n) \in DOMAIN cl /\ cl[HName(n)].busy
+EveryCallerReleased == \A n \in Chans : Busy(n) ~> ~Busy(n)
+ConnCallerReleased == cl["conn"].busy ~> ~cl["conn"].busy
+
 -----------------------------------------------------------------------------
 \* Properties of the design
 
